@@ -12,6 +12,8 @@ RULE = ("random nested structures (lists, dicts, attribute objects, opaque tuple
         "skeletons; each case drives a random history of get_/construct_ calls on ONE Packer and compares every "
         "result with a 60-line reference model; non-trivial = structure has >=2 tensor slots and >=1 successful "
         "reconstruction was compared slot by slot")
+RULE += ("; group extra (vf/c20_extra.py): structures without any tensor (rebuilds are fresh copies, wrong lengths rejected), the caller modifying a returned listing")
+REQUIRED_COUNTERS = {"quick": {"extra_empty_structures": 20, "extra_listmut_histories": 20}, "thorough": {"extra_empty_structures": 200, "extra_listmut_histories": 200}}
 MIN_NONTRIVIAL = {"quick": 300, "thorough": 3000}
 ASSUMPTIONS = ["single dtype per structure (float64): the flat interface concatenates, mixed dtypes are outside the property",
                "container aliasing is generated only with consistent tensors for the non-unique interface",
@@ -76,6 +78,8 @@ def cases(seed, tier):
     # degenerate structures
     for k, spec in enumerate(["tensor", "int", "emptylist", "emptydict", "tupleonly", "obj_empty"]):
         out.append({"group": "degenerate", "spec": spec, "seed": sub_seed(seed, "c20d", k), "nops": 6})
+    from vf import c20_extra
+    out.extend(c20_extra.cases(seed, tier))
     return out
 
 
@@ -289,6 +293,9 @@ def snapshot(desc, table, obj, seen=None):
 
 
 def run_case(desc):
+    if desc.get("group") == "extra":
+        from vf import c20_extra
+        return c20_extra.run_case(desc)
     import xitorch
     obs = Obs(desc)
     rng = random.Random(desc["seed"])
